@@ -15,14 +15,17 @@
 (* STATE MACHINE, one action per public topology operation of              *)
 (* nutils.topology (shaped like the API: the structure tag `st` mirrors    *)
 (* which class the real object has and therefore which operations and      *)
-(* observations the implementation offers):                                *)
+(* observations the implementation offers; `sg` is the bookkeeping of      *)
+(* StructuredTopology slicing; c.mz records cuts that left MosaicReference *)
+(* leaves, which the implementation can neither refine nor trim again):    *)
 (*   refine     .refined                       refspace  .refine_spaces    *)
 (*   refby      .refined_by(S)                 hierand   rb(S) & rb(T)     *)
 (*   take       .take(S)                       slice     topo[lo:hi]       *)
 (*   select     .subset(take(S))               remove    topo - take(S)    *)
 (*   union      take|take, subset|subset       trim      .trim(+-(x_d-c))  *)
 (* and the complement  topo - topo.trim(..)  kept in `comp` after a trim.  *)
-(* Boundary and interfaces are state functions (observations).             *)
+(* Boundary, interfaces and the named boundary groups are state functions  *)
+(* (observations), see Prediction.                                         *)
 (*                                                                         *)
 (* PROPERTY (the text of C10) as invariants / an action property:          *)
 (*   Disjoint, WithinHull  no overlap, no duplicate, cells inside element  *)
@@ -45,7 +48,9 @@ CONSTANTS
     NPat,       \* plus NPat pattern subsets (pseudo random, deterministic)
     OpSet,      \* names of the operations that may be taken
     TrimRef,    \* maxrefine arguments of trim
-    Mutant      \* "none" or the name of a deliberately wrong model variant
+    Mutant      \* "none", or a deliberately wrong model variant that the invariants must reject:
+                \* "child-drop" (refinement loses a child), "trim-overlap" (trim and complement overlap),
+                \* "nb-skew" (asymmetric neighbour relation)
 
 VARIABLES base, cells, comp, st, sg, hist
 vars == <<base, cells, comp, st, sg, hist>>
